@@ -179,22 +179,38 @@ def main():
   rnd = random.Random(seed * 1000 + shard)
   alpha = alphabet()
   events, errors = [], []
-  n = 45 if tier == "quick" else 400
+  n = 30 if tier == "quick" else 400
   tries = 0
-  while len(events) < n and tries < 20 * n:
+  # systematic part: every one-layer model x every (name entry, class entry) pair - the part of TLC's lattice in which
+  # precedence between a name entry and a class entry is decided
+  qn = {"Dense": "QDense", "Conv2D": "QConv2D", "DepthwiseConv2D": "QDepthwiseConv2D", "Activation": "QActivation",
+        "ReLU": "QActivation", "LeakyReLU": "QActivation", "BatchNormalization": "QBatchNormalization"}
+  class_entries = {"QDense": ["absent", "empty", "A", "B"], "QConv2D": ["absent", "empty", "A", "B"],
+                   "QDepthwiseConv2D": ["absent", "empty", "A", "B"], "QActivation": ["absent", "S", "D"],
+                   "QBatchNormalization": ["absent", "N"]}
+  systematic = [(dict(l, name="n1"), ne, ce) for l in alpha for ne in name_entries(l["kind"]) for ce in class_entries[qn[l["kind"]]]]
+  systematic = [c for j, c in enumerate(systematic) if j % nshards == shard]
+  while (systematic or len(events) < n) and tries < 20 * n + 1000:
     tries += 1
-    ln = rnd.choice([1, 2, 2, 3, 3])
-    model = [dict(rnd.choice(alpha), name="n%d" % (j + 1)) for j in range(ln)]
-    km = build(model)
-    if km is None:
-      continue
-    d = {k: "absent" for k in KEYS}
-    for k in ("QDense", "QConv2D", "QDepthwiseConv2D"):
-      d[k] = rnd.choice(["absent", "absent", "empty", "A", "B"])
-    d["QActivation"] = rnd.choice(["absent", "absent", "S", "D"])
-    d["QBatchNormalization"] = rnd.choice(["absent", "absent", "N"])
-    for l in model:
-      d[l["name"]] = rnd.choice(["absent", "absent"] + name_entries(l["kind"]))
+    if systematic:
+      l1, ne, ce = systematic.pop()
+      model = [l1]
+      km = build(model)
+      d = {k: "absent" for k in KEYS}
+      d["n1"], d[qn[l1["kind"]]] = ne, ce
+    else:
+      ln = rnd.choice([1, 2, 2, 3, 3])
+      model = [dict(rnd.choice(alpha), name="n%d" % (j + 1)) for j in range(ln)]
+      km = build(model)
+      if km is None:
+        continue
+      d = {k: "absent" for k in KEYS}
+      for k in ("QDense", "QConv2D", "QDepthwiseConv2D"):
+        d[k] = rnd.choice(["absent", "absent", "empty", "A", "B"])
+      d["QActivation"] = rnd.choice(["absent", "absent", "S", "D"])
+      d["QBatchNormalization"] = rnd.choice(["absent", "absent", "N"])
+      for l in model:
+        d[l["name"]] = rnd.choice(["absent", "absent"] + name_entries(l["kind"]))
     kind_of = {"QDense": "Dense", "QConv2D": "Conv2D", "QDepthwiseConv2D": "DepthwiseConv2D", "QActivation": "Activation",
                "QBatchNormalization": "BatchNormalization"}
     kind_of.update({l["name"]: l["kind"] for l in model})
